@@ -19,8 +19,9 @@ func init() {
 			ruleA4(c)
 			ruleA5(c)
 			ruleF1(c)
+			ruleS2S3(c) // a failed handshake or synchronization releases the sync gate, so later plugins can register
 		},
-		explanation: "Decides the gatekeeping structure of registration: in RegisterPlugin (for external plugins) the success report is dominated by the non-empty-name test and by a successful CheckPluginIndex, every failure reports a non-nil error on the registration channel and returns one; CheckPluginIndex returns nil only on paths whose branch conditions imply length 2 and two ASCII digits (decided by interval reasoning over the conditions); the registration channel has capacity >= 1 at every construction site; start waits in a select over the registration result, the connection-closed channel and a timer of the registration timeout, and its timeout branch closes and stops the plugin and returns an error; configure stores the plugin's event mask only after rejecting bits outside ValidEvents; the accept loop reaches the activation only through the success branches of connection set-up, start and synchronization and every failure continues with the next connection; the listener is only created when external connections are enabled and the socket directory is created with a mode that has no group/other bits.",
+		explanation: "Decides the gatekeeping structure of registration: in RegisterPlugin (for external plugins) the success report is dominated by the non-empty-name test and by a successful CheckPluginIndex, every failure reports a non-nil error on the registration channel and returns one; CheckPluginIndex returns nil only on paths whose branch conditions imply length 2 and two ASCII digits (decided by interval reasoning over the conditions); the registration channel has capacity >= 1 at every construction site; start waits in a select over the registration result, the connection-closed channel and a timer of the registration timeout, and its timeout branch closes and stops the plugin and returns an error; configure stores the plugin's event mask only after rejecting bits outside ValidEvents; the accept loop reaches the activation only through the success branches of connection set-up, start and synchronization and every failure continues with the next connection; the listener is only created when external connections are enabled and the socket directory is created with a mode that has no group/other bits. A failed handshake releases the sync gate; every directory the package creates is private.",
 		notDecided: []string{
 			"umask arithmetic (a umask only removes bits)",
 			"that a silent plugin delays, not prevents, the next one by the timeout",
@@ -518,6 +519,24 @@ func ruleA5(c *Ctx) {
 		}
 	}
 	c.ok("A5", "dirmode", mkdir.Pos(), bad == "", "the socket directory is private to the runtime's user", bad)
+	// nothing else in the package creates it first with a wider mode (an option that "prepares" the directory would
+	// turn the private MkdirAll above into a no-op)
+	n := 0
+	for _, g := range m.funcsInPkg(pkgAdapt) {
+		for _, ci := range calls(g) {
+			h := m.callee(ci.Common())
+			if h == nil || (h.String() != "os.MkdirAll" && h.String() != "os.Mkdir") || ci == mkdir {
+				continue
+			}
+			n++
+			okM := false
+			if k, isC := constInt(ci.Common().Args[1]); isC && k&0o077 == 0 {
+				okM = true
+			}
+			c.ok("A5", fmt.Sprintf("dirmode/%s#%d", funcKey(g), n), ci.Pos(), okM, "every directory the adaptation creates is private to the runtime's user",
+				"a directory is created with a mode that has group/other bits (or a non-constant mode): if it is the socket's directory the later private MkdirAll is a no-op and other users can reach the NRI socket")
+		}
+	}
 	_ = types.Typ
 	_ = strings.TrimSpace
 }
